@@ -159,6 +159,8 @@ def _once(case, acc, nodes):
     before = c10.tree_state(nodes)
     exporter = JsonExporter(dictexporter=dictexporter, maxlevel=maxlevel, **kwargs)
     text = exporter.export(start)
+    if JsonExporter(dictexporter, maxlevel, **kwargs).export(start) != text:
+        raise Violation("export-text", "JsonExporter(dictexporter, maxlevel) passed by position exports something else")
     ref = c10.ref_export(start, attriter, childiter or list, dict, effective)
     expected = json.dumps(ref, **kwargs)
     if text != expected:
